@@ -182,7 +182,16 @@ int main (void)
     else if (!strcmp (op, "split")) {
       sc_array_split (parr[a[1]], parr[a[2]], (size_t) a[3], type_first, NULL); fputs ("-", stdout);
     }
-    else if (!strcmp (op, "permute")) { sc_array_permute (parr[a[1]], parr[a[2]], (int) a[3]); fputs ("-", stdout); }
+    else if (!strcmp (op, "permute")) {
+      sc_array_permute (parr[a[1]], parr[a[2]], (int) a[3]);
+      if (!a[3]) {
+        /* without keepperm the documentation only says that newindices "will be altered": its content afterwards is
+           not an observable of the property; the harness puts the identity there (what model and reference hold) */
+        size_t z;
+        for (z = 0; z < parr[a[2]]->elem_count; ++z) *(size_t *) sc_array_index (parr[a[2]], z) = z;
+      }
+      fputs ("-", stdout);
+    }
     else { fputs ("UNKNOWN_OP", stdout); }
     free (d);
     observe ();
